@@ -90,7 +90,10 @@ def gen(seed):
     ign = []
     if rng.random() < 0.4:
         ign = rng.sample(['ignored', 'pool-1', 'Dummy', 'worker-[02]', 'orker', '-1$',
-                          'ool-', r'worker$'], rng.randint(1, 2))
+                          'ool-', r'worker$', '(?i)IGNORED', r'(pool)-\d', r'(\w+)-\1',
+                          '(?i)KEEPALIVE'], rng.randint(1, 3))
+        # (patterns are independent regular expressions: inline flags and group numbers of
+        # one must not reach into another)
         opt['extra'] = ['--ignore-new-thread=%s' % x for x in ign]
     # starts before ends at the same site; raises last
     plan = [e for e in plan if e.get('fn') == 'thread_start'] + \
